@@ -527,7 +527,23 @@ class Program:
                 if c is None:
                     return [Callee("external", name=k + "." + f.attr,
                                    how="dotted")]
-            return []
+            # a mixin: what follows it depends on the concrete class -- every
+            # next definition along the MRO of any subclass
+            out, own = [], fi.cls.qualname
+            for sq in m.subclasses(own):
+                smro = m.mro(sq)
+                if sq == own or own not in smro:
+                    continue
+                for k in smro[smro.index(own) + 1:]:
+                    c = m.classes.get(k)
+                    if c is None:
+                        break
+                    if f.attr in c.methods:
+                        if all(o.fn is not c.methods[f.attr] for o in out):
+                            out.append(Callee("repo", c.methods[f.attr],
+                                              how="super"))
+                        break
+            return out
         if isinstance(f, ast.Attribute):
             d = dotted(f)
             if d is not None and not self._is_local(fi, d.split(".")[0]):
